@@ -94,6 +94,7 @@ type Op struct {
 	Host    int      `json:"host"`
 	Sni     string   `json:"sni,omitempty"`
 	TLS12   bool     `json:"tls12,omitempty"`     // hs: client caps the version at TLS 1.2
+	Client  string   `json:"client,omitempty"`    // hs: capability profile of the client (clientProfiles); "" = crypto/tls defaults
 	TCP     bool     `json:"tcp,omitempty"`       // hs: real loopback TCP sockets (a listener's connection) instead of net.Pipe
 	Before  int      `json:"before_ms,omitempty"` // expire: stop this many ms BEFORE the last NotAfter instead of after it
 	Std     bool     `json:"std,omitempty"`       // hs: the client itself verifies (RootCAs + ServerName), as a browser would
@@ -711,7 +712,43 @@ func handshakeOnce(scfg, ccfg *tls.Config, bound time.Duration, tcp bool) hsOut 
 	return out
 }
 
-func (x *exec) clientConfig(e expectation, sni string, tls12, std bool) *tls.Config {
+// clientProfiles: what the client of a handshake is able to do. Every profile
+// can use an RSA leaf (the only kind of key the proxy holds); none of them is
+// owed more than the statement says - the handshake completes.
+var clientProfiles = map[string]func(*tls.Config){
+	"rsa12": func(c *tls.Config) { // TLS 1.2 at most, ECDHE-RSA suites only: cannot use an ECDSA leaf
+		c.MaxVersion = tls.VersionTLS12
+		c.CipherSuites = []uint16{tls.TLS_ECDHE_RSA_WITH_AES_128_GCM_SHA256, tls.TLS_ECDHE_RSA_WITH_AES_256_GCM_SHA384}
+	},
+	"rsa12-chacha": func(c *tls.Config) {
+		c.MaxVersion = tls.VersionTLS12
+		c.CipherSuites = []uint16{tls.TLS_ECDHE_RSA_WITH_CHACHA20_POLY1305_SHA256}
+	},
+	"rsa12-cbc": func(c *tls.Config) {
+		c.MaxVersion = tls.VersionTLS12
+		c.CipherSuites = []uint16{tls.TLS_ECDHE_RSA_WITH_AES_128_CBC_SHA, tls.TLS_ECDHE_RSA_WITH_AES_256_CBC_SHA}
+	},
+	"tls13":  func(c *tls.Config) { c.MinVersion = tls.VersionTLS13 },
+	"x25519": func(c *tls.Config) { c.CurvePreferences = []tls.CurveID{tls.X25519} },
+	"p384-12": func(c *tls.Config) {
+		c.MaxVersion = tls.VersionTLS12
+		c.CurvePreferences = []tls.CurveID{tls.CurveP384}
+	},
+	"p256": func(c *tls.Config) { c.CurvePreferences = []tls.CurveID{tls.CurveP256} },
+}
+
+var clientProfileNames = []string{"rsa12", "rsa12-chacha", "rsa12-cbc", "tls13", "x25519", "p384-12", "p256"}
+
+func (x *exec) clientConfig(e expectation, sni string, tls12, std bool, client string) *tls.Config {
+	f := clientProfiles[client]
+	cc := x.clientConfigBase(e, sni, tls12 && f == nil, std) // a profile sets its own versions
+	if f != nil {
+		f(cc)
+	}
+	return cc
+}
+
+func (x *exec) clientConfigBase(e expectation, sni string, tls12, std bool) *tls.Config {
 	cc := &tls.Config{ServerName: sni, InsecureSkipVerify: true}
 	if std && !e.refuse {
 		// ServerName doubles as the name to verify; Go sends it as SNI only
@@ -727,15 +764,18 @@ func (x *exec) clientConfig(e expectation, sni string, tls12, std bool) *tls.Con
 
 // hs performs one real handshake and applies the oracle.
 func (x *exec) hs(where string, api string, host int, sni string, tls12, std, held bool) {
-	x.hsOver(where, api, host, sni, tls12, std, held, false)
+	x.hsOver(where, api, host, sni, tls12, std, held, false, "")
 }
 
 // hsOver: tcp selects real loopback sockets instead of the in-memory pipe.
-func (x *exec) hsOver(where string, api string, host int, sni string, tls12, std, held, tcp bool) {
+func (x *exec) hsOver(where string, api string, host int, sni string, tls12, std, held, tcp bool, client string) {
 	e := expect(x.c.Hosts, api, host, sni)
 	where = where + " handshake against " + describeReq(x.c.Hosts, api, host, sni)
 	if tcp {
 		where += " over TCP loopback"
+	}
+	if client != "" {
+		where += " by a client limited to profile " + client
 	}
 	if held && x.held[heldKey(api, host)] != nil {
 		where += " (tls.Config built at an earlier step)"
@@ -750,7 +790,7 @@ func (x *exec) hsOver(where string, api string, host int, sni string, tls12, std
 		std = false
 	}
 	run := func(bound time.Duration) hsOut {
-		return handshakeOnce(x.serverConfig(api, host, held), x.clientConfig(e, sni, tls12, std), bound, tcp)
+		return handshakeOnce(x.serverConfig(api, host, held), x.clientConfig(e, sni, tls12, std, client), bound, tcp)
 	}
 	out := run(kit.T())
 	if out.timeout {
@@ -787,7 +827,10 @@ func (x *exec) hsOver(where string, api string, host int, sni string, tls12, std
 		if std && out.cerr != nil && len(out.raw) == 0 {
 			// the verifying client turned the certificate down: same classes as
 			// the manual oracle, so one defect has one signature
-			class = "client-verification-failed"
+			var cve *tls.CertificateVerificationError
+			if errors.As(out.cerr, &cve) {
+				class = "client-verification-failed"
+			}
 			var he x509.HostnameError
 			var ie x509.CertificateInvalidError
 			var ue x509.UnknownAuthorityError
@@ -819,7 +862,7 @@ func (x *exec) step(i int, op Op) {
 	case "get":
 		x.get(where, op.API, op.Host, op.Sni, op.Held)
 	case "hs":
-		x.hsOver(where, op.API, op.Host, op.Sni, op.TLS12, op.Std, op.Held, op.TCP)
+		x.hsOver(where, op.API, op.Host, op.Sni, op.TLS12, op.Std, op.Held, op.TCP, op.Client)
 	case "prep":
 		x.held[heldKey(op.API, op.Host)] = x.serverConfig(op.API, op.Host, false)
 		x.lastPrep = time.Now()
@@ -1143,6 +1186,7 @@ func run(check string, c Case) kit.Verdict {
 
 type caseInfo struct {
 	ip, v6bare, v6port, port, mixed, hit, crossing, conc, handshake, tls12, noName, sni, sniDiffers, std, apiTLS bool
+	profiles, mixedClients                                                                                       bool
 	nearExpiry, tcp                                                                                              bool
 	v6bracketed                                                                                                  bool
 	odd, afterOdd, long                                                                                          bool
@@ -1152,8 +1196,9 @@ type caseInfo struct {
 func analyse(c Case) caseInfo {
 	var ci caseInfo
 	requested := map[string]bool{}
-	stale := map[string]bool{}   // requested before an expire step
-	prepped := map[string]bool{} // API/Host with a kept tls.Config -> an expire step has passed since
+	stale := map[string]bool{}      // requested before an expire step
+	clientOf := map[string]string{} // name -> capability profile of the last handshake for it
+	prepped := map[string]bool{}    // API/Host with a kept tls.Config -> an expire step has passed since
 	visit := func(api string, host int, sni string, hs bool) {
 		e := expect(c.Hosts, api, host, sni)
 		if hs {
@@ -1230,6 +1275,21 @@ func analyse(c Case) caseInfo {
 			if op.Kind == "hs" && op.TCP {
 				ci.tcp = true
 			}
+			if op.Kind == "hs" {
+				if e := expect(c.Hosts, op.API, op.Host, op.Sni); !e.refuse && !e.lenient {
+					p := op.Client
+					if p == "" && op.TLS12 {
+						p = "tls12"
+					}
+					if prev, ok := clientOf[e.key]; ok && prev != p {
+						ci.mixedClients = true
+					}
+					clientOf[e.key] = p
+					if op.Client != "" {
+						ci.profiles = true
+					}
+				}
+			}
 		case "expire":
 			if op.Before > 0 {
 				ci.nearExpiry = c.short() && len(requested) > 0
@@ -1292,7 +1352,7 @@ func classes(c Case) []string {
 		{ci.ip, "ip-literal"}, {ci.v6bare, "ipv6-bare"}, {ci.v6port, "ipv6-bracket-port"}, {ci.v6bracketed, "ipv6-bracketed-no-port"}, {ci.port, "host-port"},
 		{ci.mixed, "mixed-case"}, {ci.hit, "cache-hit"}, {ci.crossing, "expiry-crossing"}, {ci.conc, "concurrent"},
 		{ci.handshake, "handshake"}, {ci.tls12, "tls12"}, {ci.noName, "no-name"}, {ci.sni, "sni"},
-		{ci.sniDiffers, "sni-differs-from-fallback"}, {ci.std, "std-client"}, {ci.apiTLS, "api-tls"}, {c.short(), "short-validity"}, {c.validity() > 24*time.Hour, "validity-over-a-day"}, {c.validity() > (1 << 62), "validity-over-146-years"}, {ci.nearExpiry, "request-just-before-expiry"}, {ci.tcp, "handshake-over-tcp"}, {ci.odd, "unissuable-name"}, {ci.afterOdd, "request-after-unissuable-name"}, {ci.long, "long-history-160-plus-names"}, {ci.held, "held-config"}, {ci.heldCrossing, "held-config-across-expiry"}, {ci.tunnel, "proxy-tunnel"}, {ci.idleTunnel, "idle-tunnel-past-validity"}, {c.CA == "ecdsa", "ecdsa-authority"}, {c.H2 != "", "h2-configured"},
+		{ci.sniDiffers, "sni-differs-from-fallback"}, {ci.std, "std-client"}, {ci.apiTLS, "api-tls"}, {c.short(), "short-validity"}, {c.validity() > 24*time.Hour, "validity-over-a-day"}, {c.validity() > (1 << 62), "validity-over-146-years"}, {ci.profiles, "restricted-client"}, {ci.mixedClients, "same-name-different-client-capabilities"}, {ci.nearExpiry, "request-just-before-expiry"}, {ci.tcp, "handshake-over-tcp"}, {ci.odd, "unissuable-name"}, {ci.afterOdd, "request-after-unissuable-name"}, {ci.long, "long-history-160-plus-names"}, {ci.held, "held-config"}, {ci.heldCrossing, "held-config-across-expiry"}, {ci.tunnel, "proxy-tunnel"}, {ci.idleTunnel, "idle-tunnel-past-validity"}, {c.CA == "ecdsa", "ecdsa-authority"}, {c.H2 != "", "h2-configured"},
 	} {
 		if kv.on {
 			out = append(out, kv.name)
